@@ -324,6 +324,10 @@ func unmarshalBlob(fr *frame, codec string, data []value, dt types.Type, dst *va
 		*dst = &c
 		return true, ""
 	}
+	if c, ok := convertShape(copyMode{codec}, b.typ, dt, b.snap, 0); ok {
+		storeMerge(codec, dt, dst, c)
+		return true, ""
+	}
 	// interface{} target: unsupported
 	return false, fmt.Sprintf("type mismatch: encoded %s, decoding into %s", b.typ, dt)
 }
@@ -351,4 +355,85 @@ func storeMerge(codec string, t types.Type, dst *value, c value) {
 		}
 	}
 	*dst = c
+}
+
+// convertShape re-shapes a snapshot of type st into type dt when both denote the same
+// encoded document up to pointer indirection (T vs *T) inside slices, maps and pointers.
+func convertShape(m copyMode, st, dt types.Type, v value, depth int) (value, bool) {
+	if depth > 40 {
+		return nil, false
+	}
+	if types.Identical(st, dt) {
+		return deepCopy(m, dt, v, depth), true
+	}
+	if dp, ok := dt.Underlying().(*types.Pointer); ok {
+		if sp, ok := st.Underlying().(*types.Pointer); ok {
+			p := v.(*value)
+			if p == nil {
+				return (*value)(nil), true
+			}
+			c, ok := convertShape(m, sp.Elem(), dp.Elem(), *p, depth+1)
+			if !ok {
+				return nil, false
+			}
+			return &c, true
+		}
+		c, ok := convertShape(m, st, dp.Elem(), v, depth+1)
+		if !ok {
+			return nil, false
+		}
+		return &c, true
+	}
+	if sp, ok := st.Underlying().(*types.Pointer); ok {
+		p := v.(*value)
+		if p == nil {
+			return zero(dt), true
+		}
+		return convertShape(m, sp.Elem(), dt, *p, depth+1)
+	}
+	switch du := dt.Underlying().(type) {
+	case *types.Slice:
+		su, ok := st.Underlying().(*types.Slice)
+		if !ok {
+			return nil, false
+		}
+		xs := v.([]value)
+		if xs == nil {
+			return []value(nil), true
+		}
+		out := make([]value, len(xs))
+		for i, x := range xs {
+			c, ok := convertShape(m, su.Elem(), du.Elem(), x, depth+1)
+			if !ok {
+				return nil, false
+			}
+			out[i] = c
+		}
+		return out, true
+	case *types.Map:
+		su, ok := st.Underlying().(*types.Map)
+		if !ok || !types.Identical(su.Key(), du.Key()) {
+			return nil, false
+		}
+		x := v.(*omap)
+		if x == nil {
+			return (*omap)(nil), true
+		}
+		out := newOmap(x.keyType)
+		for i := range x.keys {
+			c, ok := convertShape(m, su.Elem(), du.Elem(), x.vals[i], depth+1)
+			if !ok {
+				return nil, false
+			}
+			out.keys = append(out.keys, x.keys[i])
+			out.vals = append(out.vals, c)
+			if ck, ok := canonKey(x.keys[i]); ok {
+				out.idx[ck] = i
+			} else {
+				out.nsym++
+			}
+		}
+		return out, true
+	}
+	return nil, false
 }
